@@ -113,7 +113,9 @@ def _call_closure(bld, cq, P, args, dst, target, sp, ex):
     F, nb = bld.F, bld.nb
     clo = F.bodies[cq]
     pr = bld.local(clo['locals'][1])
-    bi = bld.block([_assign(pr, {'k': 'ref', 'mut': True, 'pl': {'l': P, 'p': []}}, sp, ex)],
+    envt = F.types[clo['locals'][1]]
+    first = _assign(pr, {'k': 'ref', 'mut': True, 'pl': {'l': P, 'p': []}}, sp, ex) if envt['k'] == 'ref' else _assign(pr, {'k': 'use', 'ops': [_mv(P)]}, sp, ex)
+    bi = bld.block([first],
                    {'k': 'call', 'callee': cq, 'res': cq, 'rk': 'item', 'local': True, 'selfk': 'concrete', 'gargs': [],
                     'args': [_mv(pr)] + args, 'dst': {'l': dst, 'p': []}, 'target': target, 'sp': sp, 'exp': ex})
     return bi
@@ -228,6 +230,7 @@ def _consumer(F, nb, bi, t, kind, cq):
     it_l = it_op['pl']['l']
     it_is_ref = F.types[nb['locals'][it_l]]['k'] == 'ref'
     R = t['dst']['l']
+    nb.setdefault('synth_results', []).append(R)
     T = t['target']
     P = C['pl']['l']
     isize = _ty(F, lambda x: x.get('s') == 'isize')
@@ -260,9 +263,12 @@ def _consumer(F, nb, bi, t, kind, cq):
     elif kind in ('find', 'find_map'):
         ex_st = [_assign(R, {'k': 'aggr', 'ak': 'adt:std::option::Option::None', 'ops': []}, sp, ex)]
     elif kind == 'try_for_each':
-        if rt_ty.get('p') != 'std::ops::ControlFlow':
+        if rt_ty.get('p') == 'std::ops::ControlFlow':
+            ex_st = [_assign(R, {'k': 'aggr', 'ak': 'adt:std::ops::ControlFlow::Continue', 'ops': []}, sp, ex)]
+        elif rt_ty.get('p') == 'std::result::Result':
+            ex_st = [_assign(R, {'k': 'aggr', 'ak': 'adt:std::result::Result::Ok', 'ops': []}, sp, ex)]
+        else:
             return False
-        ex_st = [_assign(R, {'k': 'aggr', 'ak': 'adt:std::ops::ControlFlow::Continue', 'ops': []}, sp, ex)]
     else:
         ex_st = []
     n_ex = out_block(ex_st)
@@ -284,6 +290,10 @@ def _consumer(F, nb, bi, t, kind, cq):
             D2 = bld.local(isize)
             hit = out_block([_some_of(R, V, sp, ex)])
             n3 = bld.block([_discr(D2, V, 'std::option::Option', ['None', 'Some'], sp, ex)], _switch(D2, [[1, hit]], L, sp, ex))
+        elif kind == 'try_for_each' and rt_ty.get('p') == 'std::result::Result':
+            D2 = bld.local(isize)
+            hit = out_block([_assign(R, {'k': 'aggr', 'ak': 'adt:std::result::Result::Err', 'ops': [_mv(V, ['as Err#1', '.0:0@std::result::Result'])]}, sp, ex)])
+            n3 = bld.block([_discr(D2, V, 'std::result::Result', ['Ok', 'Err'], sp, ex)], _switch(D2, [[1, hit]], L, sp, ex))
         elif kind == 'try_for_each':
             D2 = bld.local(isize)
             hit = out_block([_assign(R, {'k': 'aggr', 'ak': 'adt:std::ops::ControlFlow::Break', 'ops': [_mv(V, list(BREAK_P))]}, sp, ex)])
@@ -313,6 +323,136 @@ def _bool_then(F, nb, bi, t, cq):
     nb['blocks'][bi]['term'] = _switch(bop['pl']['l'], [[0, n_none]], n2, sp, ex)
     inline_call(nb, n2, clo)
     return True
+
+
+# Option / Result combinators whose closure does crate-level work:  a.or_else(|| b)  ==  match a { Some(v) => Some(v), None => b }  etc.
+#   name -> (adt, variants, index of the variant on which the closure runs, closure takes the payload?, wrap result in variant / None = as is,
+#            what the other variant becomes: 'same' (re-wrapped unchanged), 'payload' (the bare payload), ('const', variant) )
+COMBINATORS = {
+    'std::option::Option::or_else': ('std::option::Option', ['None', 'Some'], 0, False, None, 'same'),
+    'std::option::Option::and_then': ('std::option::Option', ['None', 'Some'], 1, True, None, 'same'),
+    'std::option::Option::map': ('std::option::Option', ['None', 'Some'], 1, True, 'Some', 'same'),
+    'std::option::Option::unwrap_or_else': ('std::option::Option', ['None', 'Some'], 0, False, None, 'payload'),
+    'std::option::Option::ok_or_else': ('std::option::Option', ['None', 'Some'], 0, False, 'Err', 'ok'),
+    'std::result::Result::or_else': ('std::result::Result', ['Ok', 'Err'], 1, True, None, 'same'),
+    'std::result::Result::and_then': ('std::result::Result', ['Ok', 'Err'], 0, True, None, 'same'),
+    'std::result::Result::map': ('std::result::Result', ['Ok', 'Err'], 0, True, 'Ok', 'same'),
+    'std::result::Result::map_err': ('std::result::Result', ['Ok', 'Err'], 1, True, 'Err', 'same'),
+    'std::result::Result::unwrap_or_else': ('std::result::Result', ['Ok', 'Err'], 1, True, None, 'payload'),
+}
+VAR_ADT = {'Some': 'std::option::Option', 'None': 'std::option::Option', 'Ok': 'std::result::Result', 'Err': 'std::result::Result'}
+
+
+def _combinator(F, nb, bi, t, cq):
+    bld = _B(F, nb)
+    clo = F.bodies[cq]
+    adt, variants, run_on, takes, wrap, other = COMBINATORS[t['callee']]
+    sp, ex = t['sp'], t.get('exp', '')
+    a, C = t['args']
+    if a.get('k') not in ('move', 'copy') or a['pl']['p'] or t['dst']['p'] or t.get('target', -1) < 0:
+        return False
+    A, R, T = a['pl']['l'], t['dst']['l'], t['target']
+    isize = _ty(F, lambda x: x.get('s') == 'isize')
+    D = bld.local(isize)
+    Y = bld.local(clo['locals'][0])
+
+    def proj(vi):
+        return ['as %s#%d' % (variants[vi], vi), '.0:0@' + adt]
+    # closure branch
+    if wrap is None:
+        res_st = [_assign(R, {'k': 'use', 'ops': [_mv(Y)]}, sp, ex)]
+    else:
+        res_st = [_assign(R, {'k': 'aggr', 'ak': 'adt:%s::%s' % (VAR_ADT[wrap], wrap), 'ops': [_mv(Y)]}, sp, ex)]
+    n_res = bld.block(res_st, _goto(T, sp, ex))
+    args = []
+    pre = []
+    if takes and clo['argc'] >= 2:
+        x = bld.local(clo['locals'][2])
+        pre.append(_assign(x, {'k': 'use', 'ops': [_mv(A, proj(run_on))]}, sp, ex))
+        args = [_mv(x)]
+    n_call = _call_closure(bld, cq, C['pl']['l'], args, Y, n_res, sp, ex)
+    nb['blocks'][n_call]['stmts'] = pre + nb['blocks'][n_call]['stmts']
+    # the other variant
+    ov = 1 - run_on
+    if other == 'same':
+        has_payload = variants[ov] in ('Some', 'Ok', 'Err')
+        o_st = [_assign(R, {'k': 'aggr', 'ak': 'adt:%s::%s' % (adt, variants[ov]), 'ops': [_mv(A, proj(ov))] if has_payload else []}, sp, ex)]
+    elif other == 'payload':
+        o_st = [_assign(R, {'k': 'use', 'ops': [_mv(A, proj(ov))]}, sp, ex)]
+    else:  # 'ok': Some(v) -> Ok(v)
+        o_st = [_assign(R, {'k': 'aggr', 'ak': 'adt:std::result::Result::Ok', 'ops': [_mv(A, proj(ov))]}, sp, ex)]
+    n_other = bld.block(o_st, _goto(T, sp, ex))
+    nb['blocks'][bi]['stmts'] = nb['blocks'][bi]['stmts'] + [_discr(D, A, adt, variants, sp, ex)]
+    nb['blocks'][bi]['term'] = _switch(D, [[run_on, n_call]], n_other, sp, ex)
+    inline_call(nb, n_call, clo)
+    return True
+
+
+def _closure_is_interesting(F, cq, depth=0):
+    """the closure (or one it builds) calls into the Node / Adjacent API or a traversal kernel: what it does must be seen in place"""
+    cb = F.bodies.get(cq)
+    if cb is None or depth > 3:
+        return False
+    for bi, t in calls_in(cb):
+        r = t.get('res', '')
+        if t.get('local') and r in F.bodies:
+            owner = F.bodies[r].get('impl_self_q', '') or ''
+            if (owner.endswith('::node::adjacent::Adjacent') or owner.endswith('::node::Node') or owner.endswith('::Graph') or
+                    ('::node::algo::' in owner and owner.split('::')[-1] in ('Bfs', 'Dfs', 'Pfs', 'Order', 'Method'))) and \
+                    r.split('::')[-1] not in ('key', 'value', 'clone', 'source', 'target', 'new', 'fmt', 'eq', 'cmp', 'partial_cmp', 'hash', 'upgrade', 'downgrade'):
+                return True
+    for bb in cb['blocks']:
+        for s_ in bb['stmts']:
+            if s_['k'] == 'assign' and s_['rv']['k'] == 'aggr' and s_['rv']['ak'].startswith('closure:') and _closure_is_interesting(F, s_['rv']['ak'][len('closure:'):], depth + 1):
+                return True
+    return False
+
+
+def normalize_combinators(F, b, max_rounds=8):
+    """rewrites Option/Result combinators and bool::then whose closure does crate-level work; None when there is nothing to do"""
+    def sites(body):
+        out = []
+        for bi, t in calls_in(body):
+            c = t['callee']
+            if (c in COMBINATORS or c == 'bool::then') and len(t['args']) == 2:
+                cq = _closure_of(F, body, t['args'][1])
+                if cq and _closure_is_interesting(F, cq):
+                    out.append((bi, t, cq))
+        return out
+    if not sites(b):
+        return None
+    nb = copy.deepcopy({k: v for k, v in b.items() if k != '_facts'})
+    base_regions = len(b.get('inl_regions', []))
+    log = []
+    for _ in range(max_rounds):
+        ss = sites(nb)
+        if not ss or len(nb['blocks']) > 1000:
+            break
+        bi, t, cq = ss[0]
+        ok = _bool_then(F, nb, bi, t, cq) if t['callee'] == 'bool::then' else _combinator(F, nb, bi, t, cq)
+        if not ok:
+            return None
+        log.append('%s:%s' % (t['callee'].split('::')[-1], cq.split('::')[-1]))
+    # value-taking cousins in a body that is rewritten anyway:  a.ok_or(e) == match a { Some(v) => Ok(v), None => Err(e) }
+    for bi, t in list(calls_in(nb, lambda t: t['callee'] == 'std::option::Option::ok_or' and len(t['args']) == 2)):
+        a, e = t['args']
+        if a.get('k') not in ('move', 'copy') or a['pl']['p'] or t['dst']['p'] or t.get('target', -1) < 0:
+            continue
+        bld = _B(F, nb)
+        sp, ex = t['sp'], t.get('exp', '')
+        A, R, T = a['pl']['l'], t['dst']['l'], t['target']
+        D = bld.local(_ty(F, lambda x: x.get('s') == 'isize'))
+        n_ok = bld.block([_assign(R, {'k': 'aggr', 'ak': 'adt:std::result::Result::Ok', 'ops': [_mv(A, list(SOME_P))]}, sp, ex)], _goto(T, sp, ex))
+        n_err = bld.block([_assign(R, {'k': 'aggr', 'ak': 'adt:std::result::Result::Err', 'ops': [e]}, sp, ex)], _goto(T, sp, ex))
+        nb['blocks'][bi]['stmts'] = nb['blocks'][bi]['stmts'] + [_discr(D, A, 'std::option::Option', ['None', 'Some'], sp, ex)]
+        nb['blocks'][bi]['term'] = _switch(D, [[1, n_ok]], n_err, sp, ex)
+        log.append('ok_or')
+    n = thread_constants(F, nb)
+    nb['inl_regions'] = nb.get('inl_regions', [])[:base_regions]
+    nb['_facts'] = F
+    nb['desugared_combinators'] = log
+    nb['threaded'] = n
+    return nb
 
 
 def _discr_pred(F, nb, bi, t):
@@ -459,8 +599,15 @@ def thread_constants(F, nb, max_clones=120):
                             else:
                                 blocked = True
                             break
-                    if blocks[p]['term']['k'] == 'call' and not blocks[p]['term']['dst']['p'] and blocks[p]['term']['dst']['l'] in S:
-                        blocked = True
+                    pt_ = blocks[p]['term']
+                    if pt_['k'] == 'call' and not pt_['dst']['p'] and pt_['dst']['l'] in S and not hit and not blocked:
+                        # `?`: from_residual(..) builds the failure variant of the function's result type
+                        rty_ = F.types[nb['locals'][pt_['dst']['l']]].get('p')
+                        if kind == 'variant' and pt_['callee'].endswith('FromResidual::from_residual') and rty_ in ('std::result::Result', 'std::ops::ControlFlow', 'std::option::Option'):
+                            cands.append((p, 0 if rty_ == 'std::option::Option' else 1, {'k': 'call'}))
+                            hit = True
+                        else:
+                            blocked = True
                     if hit or blocked:
                         continue
                     if passable(p):
@@ -485,7 +632,7 @@ def thread_constants(F, nb, max_clones=120):
                         return x
                 return b['term']['otherwise']
             for d, val, drv in cands:
-                if not passable(d):
+                if not passable(d) and not (drv.get('k') == 'call' and blocks[d]['term']['k'] == 'call'):
                     continue
                 region, ok, w3 = [], True, list(_succs(blocks[d]))
                 seen = set()
@@ -549,7 +696,7 @@ def thread_constants(F, nb, max_clones=120):
     return done
 
 
-def normalize(F, b, max_rounds=12):
+def normalize(F, b, max_rounds=12, only_interesting=False):
     """returns a rewritten copy of b, or None when b contains none of the recognised forms"""
     def sites(body):
         out = []
@@ -557,15 +704,19 @@ def normalize(F, b, max_rounds=12):
             c = t['callee']
             if c in ADAPTORS and len(t['args']) == 2 and t.get('gargs') and not t['dst']['p'] and t.get('target', -1) >= 0:
                 cq = _closure_of(F, body, t['args'][1])
-                if cq:
+                ad_ty = body['locals'][t['dst']['l']]
+                # only an adaptor that is stepped by an explicit next() in this body (a `for` loop); one that is handed on to
+                # collect() / extend() / another adaptor keeps its meaning as a call
+                stepped = any(True for _ in calls_in(body, lambda x: x['callee'] == 'std::iter::Iterator::next' and x.get('gargs') == [ad_ty]))
+                if cq and stepped and (not only_interesting or _closure_is_interesting(F, cq)):
                     out.append((0, bi, t, ('adaptor', ADAPTORS[c], cq)))
             elif c in CONSUMERS and len(t['args']) == 2 and t.get('gargs'):
                 cq = _closure_of(F, body, t['args'][1])
-                if cq:
+                if cq and (not only_interesting or _closure_is_interesting(F, cq)):
                     out.append((1, bi, t, ('consumer', CONSUMERS[c], cq)))
             elif c == 'bool::then' and len(t['args']) == 2:
                 cq = _closure_of(F, body, t['args'][1])
-                if cq:
+                if cq and (not only_interesting or _closure_is_interesting(F, cq)):
                     out.append((2, bi, t, ('then', None, cq)))
         return sorted(out, key=lambda x: (x[0], x[1]))
     if not sites(b):
@@ -586,6 +737,25 @@ def normalize(F, b, max_rounds=12):
         if not ok:
             return None
         log.append('%s:%s' % (kind or what, cq.split('::')[-1]))
+    # `?` applied to the result of a rewritten consumer:  branch(r)  ==  match r { Ok(v) => Continue(v), Err(e) => Break(Err(e)) }
+    for bi, t in list(calls_in(nb, lambda t: t['callee'] == 'std::ops::Try::branch' and len(t['args']) == 1)):
+        a = t['args'][0]
+        if a.get('k') not in ('move', 'copy') or a['pl']['p'] or a['pl']['l'] not in nb.get('synth_results', ()) or t['dst']['p'] or t.get('target', -1) < 0:
+            continue
+        aty = F.types[nb['locals'][a['pl']['l']]].get('p')
+        if aty != 'std::result::Result':
+            continue
+        bld = _B(F, nb)
+        sp, ex = t['sp'], t.get('exp', '')
+        A, Bk, T = a['pl']['l'], t['dst']['l'], t['target']
+        D = bld.local(_ty(F, lambda x: x.get('s') == 'isize'))
+        tmp = bld.local(nb['locals'][A])
+        n_ok = bld.block([_assign(Bk, {'k': 'aggr', 'ak': 'adt:std::ops::ControlFlow::Continue', 'ops': [_mv(A, ['as Ok#0', '.0:0@std::result::Result'])]}, sp, ex)], _goto(T, sp, ex))
+        n_err = bld.block([_assign(tmp, {'k': 'aggr', 'ak': 'adt:std::result::Result::Err', 'ops': [_mv(A, ['as Err#1', '.0:0@std::result::Result'])]}, sp, ex),
+                           _assign(Bk, {'k': 'aggr', 'ak': 'adt:std::ops::ControlFlow::Break', 'ops': [_mv(tmp)]}, sp, ex)], _goto(T, sp, ex))
+        nb['blocks'][bi]['stmts'] = nb['blocks'][bi]['stmts'] + [_discr(D, A, 'std::result::Result', ['Ok', 'Err'], sp, ex)]
+        nb['blocks'][bi]['term'] = _switch(D, [[0, n_ok]], n_err, sp, ex)
+        log.append('branch')
     # discriminant predicates on locals (only in a body that was rewritten: they usually test a consumer's result)
     for bi, t in list(calls_in(nb, lambda t: t['callee'] in DISCR_PREDS)):
         if _discr_pred(F, nb, bi, t):
